@@ -643,16 +643,25 @@ pub fn suite_fault_init(work: &Path, out: &mut dyn Write, emulated_procfs: bool)
             writeln!(out, "init at={k} errno={e} {r}").unwrap();
         }
     }
+    // descriptor exhaustion setting in at call k: every later descriptor-returning call fails
+    for k in 0..ncalls.min(120) {
+        let r = first_use_child_f(&d, Some(Fault::Exhaust(k)), emulated_procfs);
+        writeln!(out, "init exhaust_from={k} {r}").unwrap();
+    }
     let _ = fs::remove_dir_all(&d);
 }
 
 fn first_use_child(dir: &Path, fault: Option<(usize, i32)>, emulated_procfs: bool) -> String {
+    first_use_child_f(dir, fault.map(|(k, e)| Fault::Single(k, e)), emulated_procfs)
+}
+
+fn first_use_child_f(dir: &Path, fault: Option<Fault>, emulated_procfs: bool) -> String {
     let mut fds = [0i32; 2];
     unsafe { libc::pipe(fds.as_mut_ptr()) };
     let pid = unsafe { libc::fork() };
     if pid == 0 {
         unsafe { libc::close(fds[0]) };
-        let ip: Option<Box<dyn Interposer>> = fault.map(|(k, e)| Box::new(Faulter(Fault::Single(k, e))) as Box<dyn Interposer>);
+        let ip: Option<Box<dyn Interposer>> = fault.map(|f| Box::new(Faulter(f)) as Box<dyn Interposer>);
         let (r, log) = ops::recorded(ip, || {
             if emulated_procfs {
                 pathrs::verif::FORCE_OPENAT2_ENOSYS.store(true, std::sync::atomic::Ordering::SeqCst);
